@@ -108,6 +108,10 @@ def gen_inventory(rng):
         if rng.random() < 0.6:          # suffix-closed
             for i in range(1, n):
                 ons.add(cl[i:])
+    if rng.random() < 0.2:
+        # glides written with the vowel symbol: a vowel that is also listed as a one-character onset
+        # (it stays a syllable nucleus: a vowel is never taken into the onset of the next one)
+        ons.update(rng.sample(vow, rng.randint(1, min(2, len(vow)))))
     return sorted(ons), vow, cons
 
 
@@ -221,7 +225,7 @@ def main():
              'x 4 separator triples x with/without phone separators x strip x tolerant x filling vowel; the bundled data/syllabification inventories with words sampled from their symbols; '
              'malformed stream. Oracle: tolerant = strict outputs of the accepted utterances, same words/phones once syllable marks are removed, one vowel per syllable, listed and non-extendable onsets. '
              'Non-trivial = a syllable mark placed or an error.' % n,
-        assumptions=['vowels are single characters; onsets contain no vowel and no separator character'])
+        assumptions=['vowels are single characters; onsets contain no separator character; an onset contains a vowel symbol only as a one-character glide entry'])
 
 
 if __name__ == '__main__':
